@@ -481,6 +481,42 @@ func body(w *runner.W) {
 		pairs.Done()
 	}
 
+	// two damages of the SAME regular file: its content is altered at a boundary offset
+	// (or in a way that keeps a block's weak hash) and its length is changed as well, the
+	// altered byte staying inside what is left of the file
+	same := runner.NewSub(w, "same-file", run, runner.Journal())
+	if same.Active() {
+		n := 0
+		for _, p := range plans {
+			for i := 0; i < len(p.cat); i++ {
+				a := p.cat[i]
+				if a.Op != "flip" && a.Op != "collide" {
+					continue
+				}
+				for j := 0; j < len(p.cat); j++ {
+					b := p.cat[j]
+					if b.Path != a.Path || b.Op != "truncate" && b.Op != "extend" {
+						continue
+					}
+					if b.Op == "truncate" {
+						last := a.N // highest altered offset
+						if a.Op == "collide" {
+							off, _ := collideOffset(prep(p.b).pristine[a.Path], a.N)
+							last = off + 32768
+						}
+						if last >= b.N {
+							continue
+						}
+					}
+					same.Do(Case{Build: p.b, Damage: []Damage{a, b}})
+					n++
+				}
+			}
+		}
+		same.Note("pairs", n)
+		same.Done()
+	}
+
 	// thorough only: every sequence of three damages on three distinct entries
 	triples := runner.NewSub(w, "triples", run, runner.Journal())
 	if triples.Active() {
